@@ -49,10 +49,10 @@ def mid(a, b, c):
     return y + x
 
 def top(a, b, c, d):
-    r = mid(a, b, c)
-    r2 = mid(b, c, d)
-    db.Setting = r
-    return r + r2
+    m1 = mid(a, b, c)
+    m2 = mid(b, c, d)
+    db.Setting = m1
+    return m1 + m2
 
 d1.Setting = top(d0.Setting, d0.On, d0.Mode, d0.Open)
 d2.Setting = top(1, 2, d0.Lock, 4)
